@@ -19,6 +19,24 @@ ActSpellings == {"bare", "value", "quoted", "empty", "macro", "openmacro", "empt
 CtlVals == {"good", "boundary", "negative", "garbage", "empty"}
 DirVals == {"good", "boundary", "negative", "garbage", "empty", "quoted"}
 
+\* directives whose argument is one of a documented list of words (reference manual): every word is a case of its own (directive names as the registry spells them: lower case),
+\* spelled "=<word>"; the audit log is switched on in every case, so each of them is also exercised at logging time
+DirEnum == [d \in {"secauditlogtype", "secauditlogformat", "secauditengine", "secruleengine", "secrequestbodylimitaction",
+                   "secresponsebodylimitaction", "secauditlogparts", "secdebugloglevel", "secauditlogrelevantstatus",
+                   "secrequestbodyaccess", "secresponsebodyaccess", "secrequestbodylimit", "secresponsebodylimit",
+                   "secrequestbodyinmemorylimit", "secargumentslimit"} |->
+  CASE d = "secauditlogtype" -> {"=Serial", "=Concurrent", "=Https", "=Syslog"}
+    [] d = "secauditlogformat" -> {"=Native", "=JSON", "=JsonLegacy", "=OCSF"}
+    [] d = "secauditengine" -> {"=On", "=Off", "=RelevantOnly"}
+    [] d = "secruleengine" -> {"=On", "=Off", "=DetectionOnly"}
+    [] d \in {"secrequestbodylimitaction", "secresponsebodylimitaction"} -> {"=Reject", "=ProcessPartial"}
+    [] d = "secauditlogparts" -> {"=ABCDEFGHIJKZ", "=ABZ", "=AHZ"}
+    [] d = "secdebugloglevel" -> {"=0", "=3", "=9"}
+    [] d = "secauditlogrelevantstatus" -> {"=^5", "=.*"}
+    [] d \in {"secrequestbodyaccess", "secresponsebodyaccess"} -> {"=On", "=Off"}
+    [] OTHER -> {"=1", "=7", "=1048576"}]
+EnumCases == UNION {[f : {"dir"}, x : {d}, y : DirEnum[d]] : d \in DOMAIN DirEnum \cap Directives}
+
 Cases ==
   [f : {"var"}, x : Variables, y : VarRoles]
   \cup [f : {"op"}, x : Operators, y : OpArgs]
@@ -26,6 +44,7 @@ Cases ==
   \cup [f : {"tf"}, x : Transformations, y : {"single", "after-none", "twice", "multimatch"}]
   \cup [f : {"ctl"}, x : CtlOptions, y : CtlVals]
   \cup [f : {"dir"}, x : Directives, y : DirVals]
+  \cup EnumCases
 
 Outcomes == {"waf", "error"}
 
@@ -37,4 +56,5 @@ Emit == PrintT(<<"OUT", ToJson(c)>>)
 \* every vocabulary family is present (a generated Vocab that lost a registry would make the check vacuous)
 VocabComplete == /\ Cardinality(Variables) >= 50 /\ Cardinality(Operators) >= 25 /\ Cardinality(Actions) >= 25
                  /\ Cardinality(Transformations) >= 25 /\ Cardinality(Directives) >= 40 /\ Cardinality(CtlOptions) >= 10
+                 /\ Cardinality(EnumCases) >= 30
 =============================================================================
